@@ -247,6 +247,11 @@ func runC04(c *Ctx) {
 		}
 	}
 
+	// ---- E7 "later syncs unimpaired": an announce-triggered sync that failed can be retried by announcing the same
+	// head again — the failure path removes the CID from the receiver's duplicate filter whatever the error was
+	uncacheUnconditional(c, "C04.E7-failed-announce-retriable")
+	c.Floor("C04.E7-failed-announce-retriable", 1)
+
 	// ---- E6 a stalled publisher becomes a failed sync: every HTTP client a sync client is built around carries the
 	// configured request timeout (the libp2p-HTTP client comes back from NamespacedClient without one)
 	if ns := c.Func(ipnisyncPkg, "Sync.NewSyncer"); ns != nil {
